@@ -181,6 +181,38 @@ func near(share, total int64, pct int64) bool {
 	return d.Cmp(tol) <= 0
 }
 
+// ceilShareExact recomputes Ceil(float64(t) * c) in arbitrary-precision
+// arithmetic rounded to 53 bits (round to nearest even), independently of the
+// hardware float unit and of the model: the "fixed share" the property names.
+func ceilShareExact(t int64, c float64) *big.Int {
+	x := new(big.Float).SetPrec(53).SetMode(big.ToNearestEven).SetInt64(t)
+	y := new(big.Float).SetPrec(53).SetMode(big.ToNearestEven).Mul(x, new(big.Float).SetPrec(53).SetFloat64(c))
+	z, acc := y.Int(nil) // truncated towards zero
+	if acc == big.Below && y.Sign() > 0 {
+		z.Add(z, big.NewInt(1))
+	}
+	return z
+}
+
+// scheduleExact is the published schedule evaluated in arbitrary precision:
+// 4% of 20,000,000 ELA per year over 262800 blocks (as a binary64 quotient),
+// halved at HalvingRewardHeight and then every HalvingRewardInterval blocks,
+// truncated to sela.
+func scheduleExact(p *config.Configuration, h uint32) int64 {
+	k := uint64(0)
+	if h >= p.HalvingRewardHeight {
+		k = 1 + uint64(h-p.HalvingRewardHeight)/uint64(p.HalvingRewardInterval)
+	}
+	if k > 60 {
+		return 0
+	}
+	base := new(big.Float).SetPrec(53).SetMode(big.ToNearestEven).Quo(
+		new(big.Float).SetPrec(53).SetInt64(80000000000000), new(big.Float).SetPrec(53).SetInt64(262800))
+	base.SetMantExp(base, -int(k)) // exact scaling
+	z, _ := base.Int(nil)
+	return z.Int64()
+}
+
 func optZ(panicked bool, v int64) string { return lib.CoqOpt(!panicked, lib.CoqZi(v)) }
 
 func main() {
@@ -249,8 +281,12 @@ func main() {
 			if pan {
 				continue
 			}
-			// oracle: never increases once the new schedule applies
+			// oracle: never increases once the new schedule applies, and equals the schedule
 			if h >= p.NewELAIssuanceHeight {
+				if want := scheduleExact(p, h); want != r {
+					st.Fail("GetBlockReward:schedule", "block subsidy differs from the halving schedule evaluated in exact arithmetic",
+						map[string]interface{}{"net": n.name, "h": h, "reward": r, "schedule": want})
+				}
 				if have && r > prev {
 					st.Fail("GetBlockReward:increase", "block subsidy increased with height under the new issuance schedule",
 						map[string]interface{}{"net": n.name, "h": h, "reward": r, "previous": prev})
@@ -426,6 +462,8 @@ func main() {
 			}
 			if !near(os[0].V, t, 30) || (feeConsistent && !near(os[2].V, t, 35)) {
 				st.Fail("checkCoinbase:v2-share", "accepted v2 coinbase with CR/DPoS share off the fixed 30%/35%", in)
+			} else if ceilShareExact(t, 0.3).Cmp(bi(os[0].V)) != 0 || (feeConsistent && ceilShareExact(t, 0.35).Cmp(bi(os[2].V)) != 0) {
+				st.Fail("checkCoinbase:v2-share-rounding", "accepted v2 coinbase whose CR/DPoS share is not Ceil(total*0.3) / Ceil(total*0.35)", in)
 			}
 			okAddr := os[0].A == idCRAssets && os[2].A == idDposAcc
 			if e.Pow {
